@@ -33,8 +33,12 @@ type App struct {
 	Menus     map[string]string            // label symbol -> text; a missing entry resolves to the symbol itself
 	MenusLang map[string]map[string]string // lang -> label symbol -> text
 	Funcs     map[string]Func
-	FlagCount uint32
-	Inputs    []string // the application's selector alphabet
+	// Static symbols: LOAD symbols whose content is stored data (db.DATATYPE_STATICLOAD) with optional
+	// translations, not code. The in-memory resource serves them as functions of the language.
+	Static     map[string]string
+	StaticLang map[string]map[string]string // lang -> symbol -> content
+	FlagCount  uint32
+	Inputs     []string // the application's selector alphabet
 	// SharedCode makes GetCode hand out the same backing slice on every call (as an in-memory
 	// resource naturally would) instead of a fresh exact-capacity copy; used by C19 only.
 	SharedCode bool
@@ -250,6 +254,11 @@ func (r *Res) FuncFor(ctx context.Context, sym string) (resource.EntryFunc, erro
 	r.Env.Log = append(r.Env.Log, Call{Kind: "funcfor", Sym: sym, Lang: ctxLang(ctx)})
 	f, ok := r.App.Funcs[sym]
 	if !ok {
+		if _, st := r.App.Static[sym]; st {
+			f, ok = r.App.StaticFunc(sym), true
+		}
+	}
+	if !ok {
 		return nil, fmt.Errorf("no function for %s", sym)
 	}
 	return func(ctx context.Context, nodeSym string, input []byte) (resource.Result, error) {
@@ -262,3 +271,18 @@ func (r *Res) FuncFor(ctx context.Context, sym string) (resource.EntryFunc, erro
 }
 
 func (r *Res) Close(ctx context.Context) error { return nil }
+
+// StaticFunc is the function view of a static symbol: its translation in the current language if one
+// is stored, else its default content.
+func (a *App) StaticFunc(sym string) Func {
+	return func(e *Env, s string, in []byte, l string) (resource.Result, error) {
+		if l != "" {
+			if m, ok := a.StaticLang[l]; ok {
+				if t, ok := m[sym]; ok {
+					return resource.Result{Content: t}, nil
+				}
+			}
+		}
+		return resource.Result{Content: a.Static[sym]}, nil
+	}
+}
